@@ -11,6 +11,11 @@ RULE = ("all strings over the property's 11-symbol alphabet { ( ) [ ] #( \" ; ne
         "non-trivial = the text scans and the cursor token (or the one before) is a bracket token; distinct by case hash")
 ASSUMPTIONS = ["bracket shape is not part of matching (the code and the property speak of token types only)"]
 KERNEL_SAMPLE = {"quick": 300, "thorough": 3000}
+MANIFEST = dict(
+    text="Coq theorems over a hand-written model of syntax.rs/lex.rs: the counter scan returns exactly the stack-matching partner (both directions, arbitrary token lists), the output is the text with one escape pair around one whole token or the text unchanged, totality for every text/cursor; tied to /repo by exhaustive enumeration of the property's alphabet (quick: length<=4, thorough: <=5, every cursor) plus random Unicode, 3-way (impl / extracted model / vm_compute).",
+    design="DESIGN.md section 5 C20",
+    note="Trusted: Coq kernel, the hand-written model (tied by differential correspondence, sampling beyond the enumerated lengths), extraction+OCaml driver (cross-checked in-kernel on a sub-sample), Rust harness, Python oracle. Axioms: none (Closed under the global context).",
+    technique="Rocq/Coq proof (induction over token lists) + model/implementation correspondence check")
 
 ALPHA = [[40], [41], [91], [93], [35, 40], [34], [59], [10], [32], [97], [35, 92, 40]]
 ESC_ON, ESC_OFF = [27, 91, 52, 109], [27, 91, 48, 109]
